@@ -18,8 +18,15 @@ DEMO_CMD=$(python3 -c "import json;print(json.load(open('$DST/meta.json')).get('
 DEMO_CMD=$(python3 -c "
 import re,sys
 print(re.sub(r'/tmp/seed2?-$P(?!-out)', '$WT', sys.argv[1]))" "$DEMO_CMD")
+# placeholders such as <worktree>, <gleece>, <tree>, <repo> stand for the scratch worktree
+DEMO_CMD=$(echo "$DEMO_CMD" | sed -E "s#<(worktree|gleece|tree|repo|checkout|src)>#$WT#g")
 echo "demo_cmd=$DEMO_CMD" >> $R
-run_demo() { (cd $WT && eval "$DEMO_CMD" >$DST/demo-$1.log 2>&1); echo $?; }
+# a delivered top-level *_test.go is staged into the package directory the go test command names
+stage_demo() {
+  PKGDIR=$(echo "$DEMO_CMD" | grep -oE ' \./[A-Za-z0-9_/.-]+/?( |$)' | tail -1 | tr -d ' ')
+  if [ -n "$PKGDIR" ] && ls $DST/*_test.go >/dev/null 2>&1; then mkdir -p $WT/$PKGDIR && cp $DST/*_test.go $WT/$PKGDIR/; fi
+}
+run_demo() { stage_demo; (cd $WT && eval "$DEMO_CMD" >$DST/demo-$1.log 2>&1); echo $?; }
 echo "demo_clean_exit=$(run_demo clean)" >> $R
 (cd $WT && git clean -fdq && git checkout -q -- .)
 if ! (cd $WT && git apply $DST/patch.diff); then echo "patch_applies=no" >> $R; else echo "patch_applies=yes" >> $R; fi
